@@ -271,6 +271,8 @@ MUTANTS = [
     ('C19', 'kronecker_factored_lattice_lib.py', 'tf.cast(tf.equal(num_zeros, 1), prod.dtype)', 'tf.cast(tf.greater(num_zeros, 0), prod.dtype)', 'G3', 'single-zero branch also taken for several zeros'),
     ('C14', 'kronecker_factored_lattice_lib.py', '  if clip_inputs:\n    inputs = tf.clip_by_value(inputs, 0.0, lattice_sizes - 1.0)\n', '', 'X5', 'KFL never clips'),
     ('C10', 'pwl_calibration_lib.py', '        lengths_tensor * (output_range / tf.reduce_sum(lengths_tensor)))', '        lengths_tensor * (output_range / float(keypoints[-1] - keypoints[0])))', 'I5', 'slope from the untruncated keypoint span'),
+    ('C06', 'linear_lib.py', '    if -1 in monotonicities:\n      inverted_decreasing_mask', '    elif -1 in monotonicities:\n      inverted_decreasing_mask', 'P3', 'decreasing clamp only without increasing inputs'),
+    ('C18', 'premade_lib.py', '          used_idx.add(candidate_idx)', '          used_idx.add(quantiles_idx[i])', 'K2', 'stale index recorded as used'),
     ('C17', 'premade_lib.py', '        # going out of bound on the lattice\n        addition_score = -2.0',
      '        # going out of bound on the lattice\n        addition_score = -1.0', 'W7', 'full lattice ties with a repeat'),
     ('C17', 'premade_lib.py', '        # going out of bound on the lattice\n        addition_score = -2.0',
